@@ -426,4 +426,228 @@ Proof.
   - discriminate.
 Qed.
 
+(* ---------- rendezvous: outer producer -> main ---------- *)
+Lemma step_sync_outer s s' : Inv s -> step f PJ s (Sync 0 1) = Some s' -> Inv s' /\ mu s' < mu s.
+Proof.
+  open_inv H. unfold step in H; cbn [panicked mk] in H. cbn in H.
+  destruct opd0; [destruct orem0; cbn in H; discriminate|].
+  destruct orem0 as [|i r]; cbn in H; [pcs9 mpc0; cbn in H; discriminate|].
+  pcs9 mpc0; cbn in H; try discriminate.
+  destruct ic0; cbn in H; [discriminate|].
+  destruct (cin =? 0) eqn:E; cbn in H; [|discriminate]. inv_some.
+  apply Nat.eqb_eq in E. destruct ibuf0; [|cbn in Hli; lia].
+  cbn in Hseq. apply seq_cons_inv with (r := []) in Hseq. destruct Hseq as (Hi & Hseq & Hn1). cbn in Hseq.
+  split.
+  - new_state dls0. split_cond. all: light. all: light2.
+    + unfold MainI in *; cbn in *. exists (S b). subst i.
+      repeat split; auto; try lia.
+      replace (N - S b) with (N - b - 1) by lia. exact Hseq.
+      rewrite HMain. reflexivity.
+    + side.
+  - mu_base.
+Qed.
+
+(* ---------- rendezvous: forwarder m -> consumer ---------- *)
+Lemma step_sync_fwd_cons s s' m :
+  Inv s -> step f PJ s (Sync (3 + N + m) 2) = Some s' -> Inv s' /\ mu s' < mu s.
+Proof.
+  open_inv H. unfold step in H; cbn [panicked mk] in H. cbn in H.
+  rewrite <- HLp in H. rewrite nth_error_app_r in H.
+  destruct (nth_error fwds0 m) as [t|] eqn:Ef; [|discriminate].
+  assert (Hm : m < N) by (apply nth_error_lt in Ef; lia).
+  destruct (HP m Hm) as (cp & its & r & d & ch & dl & E1 & E2 & E3 & E4 & E5 & E6 & E7 & E8 & HF).
+  rewrite Ef in HF. cbn in HF. destruct HF as (fpc & fr & fok & Ht & Hf5 & Hits & Hf1 & Hf4). subst t.
+  destruct ch as [chcap chbuf chcl]. cbn in E4, E6, E7, E8, Hits, Hf1, Hf4. subst chcap d.
+  pcs6 fpc; cbn in H; try discriminate.
+  destruct cd0; cbn in H; [discriminate|].
+  destruct oc0; cbn in H; [discriminate|].
+  destruct (cout =? 0) eqn:E; cbn in H; [|discriminate]. apply Nat.eqb_eq in E.
+  destruct ob0; [|cbn in Hlo; lia].
+  inv_some. norm_state. rewrite upd_app_r.
+  fwd_facts fwds0 m Ef (fwd_thr m 3 fr fok). split.
+  - new_state4 prods0 chans0 (upd fwds0 m (fwd_thr m 3 fr fok)) (upd dls0 m (dl ++ [fr])).
+    auto_cond b HMain.
+    + rewrite upd_length; assumption.
+    + rewrite upd_length; assumption.
+    + frame_or m.
+      eexists cp, _, r, chcl, {| cap := cp; buf := chbuf; closed := chcl |}, (dl ++ [fr]).
+      rewrite !nth_error_upd_eq by (apply nth_error_lt in Ef; lia).
+      repeat split; auto; [exact E1|]. cbn.
+      exists 3, fr, fok. repeat split; auto; try lia; try discriminate.
+      rewrite <- !app_assoc. reflexivity.
+    + rewrite app_nil_r in *. apply Merge_snoc; assumption.
+    + unfold MainI in *; cbn in *. rewrite upd_length. exists b. repeat split; auto.
+  - mu_base.
+Qed.
+
+(* ---------- rendezvous: inner producer j -> forwarder j ---------- *)
+Lemma step_sync_prod_fwd s s' j :
+  j < N -> Inv s -> step f PJ s (Sync (3 + j) (3 + N + j)) = Some s' -> Inv s' /\ mu s' < mu s.
+Proof.
+  intros Hn. open_inv H. unfold step in H; cbn [panicked mk] in H. cbn in H.
+  destruct (j =? N + j) eqn:Ejj; [discriminate|].
+  rewrite nth_error_app1 in H by lia.
+  rewrite <- HLp in H. rewrite nth_error_app_r in H. rewrite HLp in H.
+  destruct (HP j Hn) as (cp & its & r & d & ch & dl & E1 & E2 & E3 & E4 & E5 & E6 & E7 & E8 & HF).
+  rewrite E2 in H.
+  destruct (nth_error fwds0 j) as [t|] eqn:Ef; [|discriminate].
+  cbn in HF. destruct HF as (fpc & fr & fok & Ht & Hf5 & Hits & Hf1 & Hf4). subst t.
+  destruct ch as [chcap chbuf chcl]. cbn in E4, E6, E7, E8, Hits, Hf1, Hf4. subst chcap d.
+  cbn in H. destruct chcl; [destruct r; cbn in H; discriminate|].
+  destruct r as [|i r]; cbn in H; [pcs6 fpc; cbn in H; discriminate|].
+  pcs6 fpc; cbn in H; try discriminate.
+  rewrite Nat.eqb_refl in H. rewrite E3 in H. cbn in H.
+  destruct (cp =? 0) eqn:E; cbn in H; [|discriminate]. apply Nat.eqb_eq in E.
+  destruct chbuf; [|cbn in E8; lia].
+  inv_some. norm_state.
+  rewrite upd_app_l by lia.
+  replace (N + j) with (length (upd prods0 j (TProd (S (S j)) r false)) + j) by (rewrite upd_length; lia).
+  rewrite upd_app_r.
+  fwd_facts fwds0 j Ef (fwd_thr j 1 i (VB true)).
+  pose proof (sumw_upd tw prods0 j _ (TProd (S (S j)) r false) E2) as Htw2.
+  unfold sumw in Htw2; cbn in Htw2.
+  split.
+  - new_state4 (upd prods0 j (TProd (S (S j)) r false)) chans0 (upd fwds0 j (fwd_thr j 1 i (VB true))) dls0.
+    auto_cond b HMain.
+    + rewrite upd_length; assumption.
+    + rewrite upd_length; assumption.
+    + frame_or j.
+      eexists 0, _, r, false, {| cap := 0; buf := []; closed := false |}, dl.
+      rewrite !nth_error_upd_eq by (try (apply nth_error_lt in Ef); lia).
+      repeat split; auto; [exact E1| discriminate |]. cbn.
+      exists 1, i, (VB true). repeat split; auto; try lia; try discriminate.
+    + unfold MainI in *; cbn in *. rewrite upd_length. exists b. repeat split; auto.
+  - mu_base.
+Qed.
+
+(* ---------- classification of the threads of a canonical state ---------- *)
+Inductive tclass (p:params) (n:nat) (t:thread) : Prop :=
+| C_outer : n = 0 -> t = TProd 0 (orem p) (opd p) -> tclass p n t
+| C_main : n = 1 -> t = TProg 0 (mpc p) [VC (Some 0); VC (Some 1); mc p; mok p; mres p] -> tclass p n t
+| C_cons : n = 2 -> t = TCons 1 (log p) (cd p) -> tclass p n t
+| C_prod j r d : n = 3 + j -> j < N -> t = TProd (2 + j) r d -> tclass p n t
+| C_fwd m fpc fr fok : n = 3 + N + m -> m < N -> fpc <= 5 -> nth_error (fwds p) m = Some t ->
+                       t = fwd_thr m fpc fr fok -> tclass p n t.
+
+Lemma classify p n t : Cond inputs cin cout p -> nth_error (thr (mk p)) n = Some t -> tclass p n t.
+Proof.
+  intros C E.
+  destruct C as (HLp & HLc & HLd & HK & HP & _).
+  destruct n as [|[|[|n]]]; cbn in E.
+  - inversion E. apply C_outer; auto.
+  - inversion E. apply C_main; auto.
+  - inversion E. apply C_cons; auto.
+  - apply nth_error_app_cases in E. destruct E as [[L E]|[m [-> E]]].
+    + rewrite HLp in L.
+      destruct (HP n L) as (cp & its & r & d & ch & dl & E1 & E2 & _).
+      rewrite E2 in E. inversion E. apply (C_prod _ _ _ n r d); auto.
+    + assert (Hm : m < N) by (apply nth_error_lt in E; lia).
+      destruct (HP m Hm) as (cp & its & r & d & ch & dl & E1 & E2 & E3 & E4 & E5 & E6 & E7 & E8 & HF).
+      rewrite E in HF. cbn in HF. destruct HF as (fpc & fr & fok & Ht & Hf5 & _).
+      apply (C_fwd _ _ _ m fpc fr fok); auto. rewrite HLp. reflexivity.
+Qed.
+
+Lemma fwd_wants_send m fpc fr fok c i :
+  fpc <= 5 -> wants PJ (fwd_thr m fpc fr fok) = WSend c i -> fpc = 2 /\ c = 1.
+Proof. intros L W. pcs6 fpc; cbn in W; try discriminate. inversion W; auto. Qed.
+Lemma fwd_wants_recv m fpc fr fok c :
+  fpc <= 5 -> wants PJ (fwd_thr m fpc fr fok) = WRecv c -> fpc = 0 /\ c = 2 + m.
+Proof. intros L W. pcs6 fpc; cbn in W; try discriminate. inversion W; auto. Qed.
+Lemma fwd_wants_sel m fpc fr fok cs :
+  fpc <= 5 -> wants PJ (fwd_thr m fpc fr fok) = WSel cs -> False.
+Proof. intros L W. pcs6 fpc; cbn in W; discriminate. Qed.
+Lemma main_wants_send pc mc0 mok0 mres0 c i :
+  pc <= 8 -> wants PJ (TProg 0 pc [VC (Some 0); VC (Some 1); mc0; mok0; mres0]) = WSend c i -> False.
+Proof. intros L W. pcs9 pc; cbn in W; discriminate. Qed.
+Lemma main_wants_recv pc mc0 mok0 mres0 c :
+  pc <= 8 -> wants PJ (TProg 0 pc [VC (Some 0); VC (Some 1); mc0; mok0; mres0]) = WRecv c -> pc = 0 /\ c = 0.
+Proof. intros L W. pcs9 pc; cbn in W; try discriminate. inversion W; auto. Qed.
+Lemma main_wants_sel pc mc0 mok0 mres0 cs :
+  pc <= 8 -> wants PJ (TProg 0 pc [VC (Some 0); VC (Some 1); mc0; mok0; mres0]) = WSel cs -> False.
+Proof. intros L W. pcs9 pc; cbn in W; discriminate. Qed.
+Lemma prod_wants_send c0 r d c i : wants PJ (TProd c0 r d) = WSend c i -> c = c0.
+Proof. destruct d, r; cbn; intros W; try discriminate. inversion W; auto. Qed.
+Lemma prod_wants_recv c0 r d c : wants PJ (TProd c0 r d) = WRecv c -> False.
+Proof. destruct d, r; cbn; intros W; discriminate. Qed.
+Lemma prod_wants_sel c0 r d cs : wants PJ (TProd c0 r d) = WSel cs -> False.
+Proof. destruct d, r; cbn; intros W; discriminate. Qed.
+Lemma cons_wants_send c0 l d c i : wants PJ (TCons c0 l d) = WSend c i -> False.
+Proof. destruct d; cbn; intros W; discriminate. Qed.
+Lemma cons_wants_recv c0 l d c : wants PJ (TCons c0 l d) = WRecv c -> c = c0.
+Proof. destruct d; cbn; intros W; try discriminate. inversion W; auto. Qed.
+Lemma cons_wants_sel c0 l d cs : wants PJ (TCons c0 l d) = WSel cs -> False.
+Proof. destruct d; cbn; intros W; discriminate. Qed.
+
+Lemma no_sel p n t cs : Cond inputs cin cout p -> nth_error (thr (mk p)) n = Some t -> wants PJ t = WSel cs -> False.
+Proof.
+  intros C E W. pose proof C as C'.
+  destruct C' as (_ & _ & _ & _ & _ & _ & _ & _ & _ & Hpc & _).
+  destruct (classify p n t C E) as [? ->|? ->|? ->|j r d ? ? ->|m fpc fr fok ? ? ? ? ->].
+  - eapply prod_wants_sel; eauto.
+  - eapply main_wants_sel; eauto.
+  - eapply cons_wants_sel; eauto.
+  - eapply prod_wants_sel; eauto.
+  - eapply fwd_wants_sel; eauto.
+Qed.
+
+Lemma step_sync s s' sn rn : Inv s -> step f PJ s (Sync sn rn) = Some s' -> Inv s' /\ mu s' < mu s.
+Proof.
+  intros HI H. pose proof H as H0. apply sync_inv in H0.
+  destruct H0 as (Hne & ts & tr & c & i & ch & Es & Er & Ws & Wr & Ech & Ecl & Ecap & _).
+  destruct HI as [p [-> C]]. assert (HI : Inv (mk p)) by (exists p; auto).
+  pose proof C as C'. destruct C' as (_ & _ & _ & _ & _ & _ & _ & _ & _ & Hpc & _).
+  destruct (classify p rn tr C Er) as [? ->|? ->|? ->|j r d ? ? ->|m fpc fr fok ? ? ? ? ->].
+  - exfalso. eapply prod_wants_recv; eauto.
+  - (* main receives: the sender is the outer producer *)
+    destruct (main_wants_recv _ _ _ _ _ Hpc Wr) as [_ ->].
+    destruct (classify p sn ts C Es) as [? ->|? ->|? ->|j r d ? ? ->|m fpc fr fok ? ? ? ? ->].
+    + subst. apply step_sync_outer; auto.
+    + exfalso. eapply main_wants_send; eauto.
+    + exfalso. eapply cons_wants_send; eauto.
+    + apply prod_wants_send in Ws. lia.
+    + apply fwd_wants_send in Ws; [|assumption]. lia.
+  - (* the consumer receives: the sender is a forwarder *)
+    apply cons_wants_recv in Wr. subst c.
+    destruct (classify p sn ts C Es) as [? ->|? ->|? ->|j r d ? ? ->|m fpc fr fok ? ? ? ? ->].
+    + apply prod_wants_send in Ws. lia.
+    + exfalso. eapply main_wants_send; eauto.
+    + exfalso. eapply cons_wants_send; eauto.
+    + apply prod_wants_send in Ws. lia.
+    + subst. eapply step_sync_fwd_cons; eauto.
+  - exfalso. eapply prod_wants_recv; eauto.
+  - (* forwarder m receives: the sender is inner producer m *)
+    apply fwd_wants_recv in Wr; [|assumption]. destruct Wr as [_ ->].
+    destruct (classify p sn ts C Es) as [? ->|? ->|? ->|j r d ? ? ->|m' fpc' fr' fok' ? ? ? ? ->].
+    + apply prod_wants_send in Ws. lia.
+    + exfalso. eapply main_wants_send; eauto.
+    + exfalso. eapply cons_wants_send; eauto.
+    + apply prod_wants_send in Ws. assert (j = m) by lia. subst. eapply step_sync_prod_fwd; eauto.
+    + apply fwd_wants_send in Ws; [|assumption]. lia.
+Qed.
+
+(* ---------- every step preserves the invariant and decreases the measure ---------- *)
+Lemma inv_step s act s' : Inv s -> step f PJ s act = Some s' -> Inv s' /\ mu s' < mu s.
+Proof.
+  intros HI H. destruct act as [n | sn rn | n k | sn rn k].
+  - destruct n as [|[|[|n]]].
+    + apply step_outer; auto.
+    + apply step_main; auto.
+    + apply step_cons; auto.
+    + destruct (Nat.lt_ge_cases n N) as [L|L].
+      * apply (step_prod s s' n L HI H).
+      * replace (S (S (S n))) with (3 + N + (n - N)) in H by lia.
+        apply (step_fwd s s' (n - N) HI H).
+  - apply (step_sync s s' sn rn HI H).
+  - exfalso. destruct HI as [p [-> C]].
+    apply tausel_inv in H. destruct H as (t & cs & E & W). eapply no_sel; eauto.
+  - exfalso. destruct HI as [p [-> C]].
+    apply syncsel_inv in H. destruct H as (t & cs & E & W). eapply no_sel; eauto.
+Qed.
+
+Lemma inv_reach s : reach f PJ (init inputs cin cout) s -> Inv s.
+Proof.
+  apply (reach_inv f PJ Inv); [apply inv_init|]. intros s0 a0 s1 Hi Hs.
+  exact (proj1 (inv_step _ _ _ Hi Hs)).
+Qed.
+
 End JCCP.
